@@ -15,7 +15,7 @@ func ruleR23() *Rule {
 	return &Rule{
 		ID:          "R23",
 		Title:       "VECTOR-GUARDS: wrong-dimension / missing-index queries never reach the engine; the per-call exclusion list is passed; only mapped ids are emitted",
-		Props:       []string{"C14"},
+		Props:       []string{"C14", "C16"},
 		VectorsOnly: true,
 		Floor:       floorFor("R23"),
 		Run: func(c *RuleCtx) {
@@ -395,4 +395,107 @@ func ruleR23() *Rule {
 			c.check(nSearch >= half(5), "engine-calls", "-", "engine search calls in the closures of InterpretVectorIndex are found (confirmed by hand: 6)", fmt.Sprintf("found %d", nSearch))
 		},
 	}
+}
+
+// ---------------------------------------------------------------------------
+// R23c EXCLUSION-LOOKED-AT (C14, C16)
+//
+// The cache hands out, together with the shared index, the ids of the vectors
+// that belong to the documents excluded *for this call*. A function that takes
+// the per-call exclusion bitmap and hands out an index with an exclusion list
+// must have looked at that bitmap on every path on which it hands the index
+// out: a path that never touches the parameter returns a list that cannot
+// depend on it (seeded change C14g: an early return in front of the
+// computation). "Looked at" = passed to a call, a method called on it, or
+// tested against nil. A necessary condition only: that the list is the right
+// one is not decided.
+func r23ExclusionLookedAt(c *RuleCtx) {
+	props := []string{"C14", "C16"}
+	n := 0
+	for _, fn := range c.p.ZapFuncs {
+		if len(fn.Blocks) == 0 {
+			continue
+		}
+		var except *ssa.Parameter
+		for _, p := range fn.Params {
+			if pt, ok := p.Type().Underlying().(*types.Pointer); ok && isBitmapPtr(pt.Elem()) {
+				except = p
+			}
+		}
+		if except == nil {
+			continue
+		}
+		res := fn.Signature.Results()
+		idxRes, listRes := -1, -1
+		for i := 0; i < res.Len(); i++ {
+			if isFaissIndexPtr(res.At(i).Type()) {
+				idxRes = i
+			}
+			if sl, ok := res.At(i).Type().Underlying().(*types.Slice); ok {
+				if bt, ok := sl.Elem().Underlying().(*types.Basic); ok && bt.Kind() == types.Int64 {
+					listRes = i
+				}
+			}
+		}
+		if idxRes < 0 || listRes < 0 {
+			continue
+		}
+		n++
+		uses := map[ssa.Instruction]bool{}
+		if refs := except.Referrers(); refs != nil {
+			for _, r := range *refs {
+				switch r.(type) {
+				case *ssa.DebugRef, *ssa.Phi:
+				default:
+					uses[r] = true
+				}
+			}
+		}
+		// through the cell of a captured / address-taken parameter
+		eachInstr(fn, func(_ *ssa.BasicBlock, in ssa.Instruction) {
+			if st, ok := in.(*ssa.Store); ok && st.Val == ssa.Value(except) {
+				if al, ok := st.Addr.(*ssa.Alloc); ok {
+					for _, r := range *al.Referrers() {
+						if u, ok := r.(*ssa.UnOp); ok && u.Referrers() != nil {
+							for _, r2 := range *u.Referrers() {
+								if _, isDbg := r2.(*ssa.DebugRef); !isDbg {
+									uses[r2] = true
+								}
+							}
+						}
+					}
+				}
+			}
+		})
+		pa := newPathAnalysis(fn, func(in ssa.Instruction, ev uint64, _ bool) []uint64 {
+			if uses[in] {
+				return []uint64{ev | 1}
+			}
+			return nil
+		})
+		pa.run(0)
+		okc := true
+		var wit []string
+		for _, ret := range returnsOf(fn) {
+			if !pa.reachable(ret.Block()) || idxRes >= len(ret.Results) {
+				continue
+			}
+			if _, ns := errorOfReturn(ret); ns == nonNil {
+				continue
+			}
+			if isNilConst(returnedValue(ret, idxRes)) {
+				continue
+			}
+			for _, ev := range pa.statesBefore(ret) {
+				if ev&1 == 0 {
+					okc = false
+					wit = append(wit, "exit "+c.pos(ret)+" hands out an index although the exclusion bitmap of this call was never looked at on the way")
+				}
+			}
+		}
+		c.add(statusOf(okc), "exclusion-looked-at/"+funcShortName(fn), c.fpos(fn),
+			"on every path on which "+funcShortName(fn)+" hands out an index, the exclusion bitmap of this call has been looked at (the exclusion list handed out with it depends on it)",
+			"a path hands out the shared index with an exclusion list that cannot depend on this call's exclusion bitmap", props, uniq(wit))
+	}
+	c.add(statusOf(n >= 2), "exclusion-looked-at/sites", "-", "functions that take the per-call exclusion bitmap and hand out an index with an exclusion list are found (pinned tree: loadOrCreate, loadFromCache, createAndCacheLOCKED)", fmt.Sprintf("found %d", n), props, nil)
 }
